@@ -294,6 +294,11 @@ def cross_pairs():
                         c2, s2 = dict(ckw), dict(skw)
                         (c2 if side == 'client' else s2)['record_size_limit'] = lim
                         add('%s+%s+rsa+record_size_limit=%d on the %s' % (gl, pl, lim, side), 'rsa', c2, s2, h, resume)
+    # a matching PSK whose hash has no cipher suite on offer: the certificate handshake must still work
+    add('psk-sha384 offered, client without a SHA-384 suite+rsa', 'rsa', {'pskConfigs': PSK384, 'cipherNames': ['aes128gcm', '3des']},
+        {'pskConfigs': PSK384}, 'sha384', False)
+    add('psk-sha256 offered, client without a SHA-256 suite+rsa', 'rsa', {'pskConfigs': PSK256, 'cipherNames': ['aes256gcm']},
+        {'pskConfigs': PSK256}, 'sha256', False)
     # older protocol versions: resumption through the session cache / tickets, PSK settings present but unused
     for ver in [(3, 1), (3, 2), (3, 3)]:
         add('TLS %d.%d+ticket-from-prior-connection+rsa' % ver, 'rsa', {'maxVersion': ver},
@@ -527,6 +532,12 @@ def run_pair(p):
                         'detail': (str(e)[:200], '')}
             raise
         parts = (M.settings_lit(vc), M.settings_lit(vs), cred_lit(p['cred'], p.get('psk')), cred_lit(p.get('ccred')))
+        shared = [v for v in KNOWN if all(x.minVersion <= v <= x.maxVersion and v in x.versions for x in (vc, vs))]
+        hsv = max(shared) if shared else None
+        # `versions` not reconciled with maxVersion / not ordered highest first on a side (known finding: such an
+        # endpoint prefers or announces a version other than the highest it enables)
+        unrec = [n for n, x in (('client', vc), ('server', vs))
+                 if x.versions and (list(x.versions) != sorted(x.versions, reverse=True) or x.versions[0] != x.maxVersion)]
         lit = True
         skw = {'settings': s}
         if p['cred'] != 'psk':
@@ -577,7 +588,8 @@ def run_pair(p):
                     cc, sc = (wc, rc) if src is pair.client else (rc, wc)
                     detail = (repr(w[1])[:200] if w[0] == 'exc' else '', repr(r[1])[:200] if r[0] == 'exc' else '')
                     break
-        return {'lit': lit, 'parts': parts, 'client': cc, 'server': sc, 'version': ver, 'detail': detail, 'phase': phase,
+        return {'lit': lit, 'parts': parts, 'hsv': hsv, 'unrec': unrec, 'client': cc, 'server': sc, 'version': ver,
+                'detail': detail, 'phase': phase,
                 'resumed': bool(getattr(pair.client, 'resumed', False)) if ver else None}
     except Exception as e:  # noqa
         import traceback
@@ -695,8 +707,16 @@ def run_pairs(ctx, found, model_ok):
         else:
             stats['incompatible+connect' if connected else 'incompatible+fail'] += 1
         if c and not connected:
-            V(ctx, found, 'compatible-pair-fails:%s%s:%s:%s' % ('' if o.get('phase', 'handshake') in ('handshake', 'prior-handshake') else o['phase'] + ':',
-                                                                cls(o['client']), cls(o['server']), reason(o)),
+            key = 'compatible-pair-fails:%s%s:%s:%s' % ('' if o.get('phase', 'handshake') in ('handshake', 'prior-handshake') else o['phase'] + ':',
+                                                          cls(o['client']), cls(o['server']), reason(o))
+            if 'downgrade-prote' in key:
+                pass                                    # the known versions/maxVersion finding in its usual form
+            elif o.get('unrec'):
+                # another manifestation of the known versions/maxVersion reconciliation finding
+                key = 'compatible-pair-fails:versions-order-or-maxVersion-not-reconciled'
+            elif p.get('psk') and o.get('hsv'):
+                key += ':psk@%d.%d' % o['hsv']          # a PSK is configured on both sides: the class depends on the version
+            V(ctx, found, key,
               'settings pair is compatible (shares a version and for it a suite, group and signature scheme usable with the %s '
               'credentials) but the %s fails: client %s, server %s; changed dimensions client=%s server=%s'
               % (p['cred'], o.get('phase', 'handshake'), o['client'], o['server'], p['labels'][0], p['labels'][1]),
